@@ -44,7 +44,7 @@ for i in range(1, 21):
             "design_ref": "DESIGN.md section 3, %s" % pid,
         },
         "level_note": "Trusted / assumed: " + "; ".join(getattr(m, "ASSUMPTIONS", [])) +
-                      ". Call resolution uses inferred types plus the closed tables in sa/callgraph.py (builtin-total, stdlib-trusted, receiver-name conventions); an unresolved call is treated as foreign.",
+                      ". Call resolution uses inferred types plus the closed tables in sa/callgraph.py (builtin-total, stdlib-trusted, receiver-name conventions); an unresolved call is treated as foreign. The source is analysed in a canonical form (sa/normalize.py, semantics-preserving rewrites N1-N19) with private helpers that are not functions of the pinned tree expanded at their call sites (sa/inline.py); a construct outside these equivalences ends the check with exit 2 (not evaluated), not with a VIOLATION.",
         "technique": TECH[pid],
     })
 man = {
